@@ -68,6 +68,10 @@ def generate(rng, tier):
                 fr = partition(rng, w, max_chunk=3, p_empty=0)
                 ops.append("rc:" + ",".join("D" + f.hex() for f in fr if f)); exp.append("ok:%d:%d:u6" % (sz, op))
         cs.append(Case("hdr w s %s %s" % (K.hex(), " ".join(ops)), "server-decodes-client-headers", " ".join(exp) + " ~0", dict(n=1)))
+    # every entry point and object form of both Wrath roles in random order (typed helpers, Read/Write wrappers, two-step large header also
+    # completed through the raw call, split, clone), long sessions crossing the 256-byte counter wrap
+    import hdr_mix
+    cs += hdr_mix.cases(rng, Case, [("w", "s"), ("w", "c")], 100 if tier == "quick" else 3000, 120, special_key=special_key)
     if tier == "thorough":
         for _ in range(6):
             cs += wrath_pair_cases(rng, rbytes(rng, 40), 1 << 20, 70000, "1MiB-stream")
